@@ -668,12 +668,21 @@ pub fn check_main(def: &CheckDef, tier: Tier) -> i32 {
     // Each death is replayed twice in a fresh process with a generous time limit; if a replay runs to completion the
     // death was environmental (an overloaded machine starving a worker past the watchdog, an OOM kill) and the
     // replay's verdict is the case's verdict.
+    // (a change that makes okane hang on a whole class of inputs produces hundreds of deaths: only the first few of
+    // each kind are replayed - a kind that reproduced three times is taken as genuine for the remaining ones)
+    let mut reproduced: BTreeMap<String, u32> = BTreeMap::new();
     for d in &res.deaths {
-        let desc = describe_case(def, tier, d.case_index);
-        let t = Duration::from_secs(def.hang_s.max(1) * 5 + 30);
-        let r1 = run_only(def, tier, d.case_index, t);
-        let r2 = run_only(def, tier, d.case_index, t);
+        let desc = if reproduced.get(&d.how).copied().unwrap_or(0) >= 3 && stats.violations.contains_key(&d.how) { String::new() } else { describe_case(def, tier, d.case_index) };
+        let t = Duration::from_secs(def.hang_s.max(1) * 2 + 10);
+        let (r1, r2) = if reproduced.get(&d.how).copied().unwrap_or(0) >= 3 {
+            ((d.how.clone(), String::new()), (d.how.clone(), String::new()))
+        } else {
+            (run_only(def, tier, d.case_index, t), run_only(def, tier, d.case_index, t))
+        };
         let finished: Vec<&(String, String)> = [&r1, &r2].into_iter().filter(|r| r.0 == "ok").collect();
+        if finished.is_empty() {
+            *reproduced.entry(d.how.clone()).or_default() += 1;
+        }
         let mut sig = d.how.clone();
         let mut detail = "worker process died or hung while running okane on this input (reproduced in 2 of 2 replays)".to_string();
         if let Some(done) = finished.first() {
@@ -699,7 +708,7 @@ pub fn check_main(def: &CheckDef, tier: Tier) -> i32 {
         *stats.classes.entry(format!("VIOLATION {}", sig)).or_default() += 1;
         let e = stats.violations.entry(sig.clone()).or_insert(ViolationRec { sig: sig.clone(), detail, case_index: d.case_index, desc: desc.clone(), count: 0 });
         e.count += 1;
-        if d.case_index < e.case_index {
+        if d.case_index < e.case_index && !desc.is_empty() {
             e.case_index = d.case_index;
             e.desc = desc;
         }
